@@ -4,8 +4,10 @@ package main
 import (
 	"bytes"
 	"fmt"
+	"github.com/gobwas/ws/wsutil"
 	"strings"
 	"unicode/utf8"
+	"verifmc/env"
 
 	"github.com/gobwas/ws"
 
@@ -419,6 +421,60 @@ func main() {
 					}
 					return nil
 				})
+			}
+		})
+
+		// The close-payload check as the library's own close handling applies it: for a received
+		// close frame the handler's verdict (the peer's code and reason reported, or a protocol
+		// error) is the verdict of CheckCloseFrameData on the unmasked payload - whichever way the
+		// transport delivers the masked bytes.
+		r.Part("E4-the-check-as-applied-by-the-close-handler", func(t *explore.T) {
+			reasons := []string{"", "bye", "going away, bye!", "\u20ac", "\xff", "by\xe2\x82", "ok\xc0\x80"}
+			codes := []int{1000, 1001, 1005, 1006, 1011, 1015, 2999, 3000, 4999, 999, 0}
+			mask := [4]byte{0x37, 0xfa, 0x21, 0x3d}
+			for _, c := range codes {
+				for _, reason := range reasons {
+					for _, delivery := range []string{"all-at-once", "chunks-of-3", "last-bytes-with-EOF", "chunks-of-3-last-with-EOF"} {
+						for _, masked := range []bool{true, false} {
+							c, reason, delivery, masked := c, reason, delivery, masked
+							t.Do(func() string {
+								return fmt.Sprintf("close code=%d reason=%q masked=%v delivered %s", c, reason, masked, delivery)
+							}, func() *explore.Fail {
+								body := append([]byte{byte(c >> 8), byte(c)}, reason...)
+								want := ws.CheckCloseFrameData(ws.StatusCode(c), reason)
+								h := ws.Header{Fin: true, OpCode: ws.OpClose, Length: int64(len(body)), Masked: masked, Mask: mask}
+								wire := body
+								st := ws.StateClientSide
+								if masked {
+									wire = refmodel.XOR(body, mask, 0)
+									st = ws.StateServerSide
+								}
+								src := env.NewSrc(wire)
+								if strings.HasPrefix(delivery, "chunks-of-3") {
+									src.Policy = env.FixedChunk(3)
+								}
+								src.WithLast = strings.HasSuffix(delivery, "with-EOF")
+								err := wsutil.ControlHandler{Src: src, Dst: env.NewDst(), State: st}.Handle(h)
+								ce, closed := err.(wsutil.ClosedError)
+								if want == nil {
+									if !closed || int(ce.Code) != c || ce.Reason != reason {
+										return explore.Failf("acceptable-close-not-reported-as-received", "handler returned %#v; CheckCloseFrameData accepts (%d,%q)", err, c, reason)
+									}
+									t.Outcome("accepted")
+									return nil
+								}
+								if closed {
+									return explore.Failf("unacceptable-close-reported-as-clean", "handler reported (%d,%q); CheckCloseFrameData: %v", ce.Code, ce.Reason, want)
+								}
+								if err != want {
+									return explore.Failf("close-verdict-differs-from-the-check", "handler: %v; CheckCloseFrameData: %v", err, want)
+								}
+								t.Outcome("refused")
+								return nil
+							})
+						}
+					}
+				}
 			}
 		})
 	})
